@@ -7,11 +7,12 @@ Open Scope N_scope.
 
 (* Main statement.  For every string table (any count below 2^31, lengths 0..65535, any UTF-16
    code units, optional formatting runs and extended blocks) and every legal layout (a CONTINUE
-   record may start before a string, between two characters — then with a fresh fHighByte flag,
-   8-bit only where the code units fit —, anywhere inside rgRun/ExtRst; headers are not split),
-   parse_sst returns the stored text of every string, outside the class CutInsidePair. *)
+   record may start before a string, between two characters — also between the two halves of a
+   surrogate pair —, then with a fresh fHighByte flag, 8-bit only where the code units fit,
+   anywhere inside rgRun/ExtRst; headers are not split), parse_sst returns the stored text of
+   every string.  No layout is excepted. *)
 Theorem C12_sst_any_split :
-  forall strs lay, legal_layout strs lay = true -> known_C12 strs lay = None ->
+  forall strs lay, legal_layout strs lay = true ->
     parse_sst (sst_encode strs lay) = Ok (map (fun s => utf16_decode (units s)) strs).
 Proof. exact sst_any_split. Qed.
 
@@ -19,13 +20,13 @@ Proof. exact sst_any_split. Qed.
    segments, rgRun, ExtRst, across all their cuts) and leaves the reader on the first byte of
    whatever follows: runs and extended data never eat into later strings. *)
 Theorem C12_string_read_exact :
-  forall us sl rest, legal_string us sl = true -> known_string us sl = None ->
+  forall us sl rest, legal_string us sl = true ->
     read_rich_extended_string (frags (string_items us sl ++ rest)) =
     Ok (utf16_decode us, frags rest).
 Proof. exact read_string_ok. Qed.
 
 Theorem C12_later_strings_unaffected :
-  forall strs lay i s, legal_layout strs lay = true -> known_C12 strs lay = None ->
+  forall strs lay i s, legal_layout strs lay = true ->
     nth_error strs i = Some s ->
     exists tbl, parse_sst (sst_encode strs lay) = Ok tbl /\ length tbl = length strs /\
                 nth_error tbl i = Some (utf16_decode (units s)).
@@ -33,15 +34,15 @@ Proof. exact later_strings_unaffected. Qed.
 
 Theorem C12_layout_irrelevant :
   forall strs lay lay',
-    legal_layout strs lay = true -> known_C12 strs lay = None ->
-    legal_layout strs lay' = true -> known_C12 strs lay' = None ->
+    legal_layout strs lay = true ->
+    legal_layout strs lay' = true ->
     parse_sst (sst_encode strs lay) = parse_sst (sst_encode strs lay').
 Proof. exact layout_irrelevant. Qed.
 
 (* a LABELSST cell shows the text of the string it refers to (no cell for an empty string) *)
 Theorem C12_labelsst_resolves :
   forall strs lay row col ixfe i s,
-    legal_layout strs lay = true -> known_C12 strs lay = None ->
+    legal_layout strs lay = true ->
     i <= 4294967295 -> nth_error strs (N.to_nat i) = Some s ->
     exists tbl, parse_sst (sst_encode strs lay) = Ok tbl /\
       parse_label_sst (labelsst_body row col ixfe i) tbl =
@@ -81,15 +82,23 @@ Proof. exact next_record_sst. Qed.
    (BoundSheet8 names, SST with its CONTINUE records) -> per-sheet loop (LABELSST through the table,
    LABEL, FORMULA + STRING): sheet names and text cells are what the writer stored. *)
 Theorem C12_workbook_strings :
-  forall strs lay shs, legal_workbook strs lay shs = true -> known_C12 strs lay = None ->
+  forall strs lay shs, legal_workbook strs lay shs = true ->
     wb_strings (workbook_stream strs lay shs) = Ok (wb_spec strs shs).
 Proof. exact wb_strings_ok. Qed.
 
-(* the decoder state machine of encoding_rs run on one segment is UTF-16 decoding of that segment;
-   segment-wise decoding equals whole-string decoding unless a cut separates a surrogate pair *)
+(* the decoder state machine of encoding_rs run on the bytes of a unit sequence is UTF-16 decoding;
+   fed segment by segment (one decoder per string, as read_dbcs does) and then finished it yields
+   the decoding of the whole string; decoding each segment on its own (what read_dbcs did before)
+   agrees with that unless a cut separates a surrogate pair *)
 Theorem C12_segment_decoder :
   forall us, all_lt 65536 us = true -> enc_decode (flat_map le16 us) = utf16_decode us.
 Proof. exact enc_decode_le16. Qed.
+Theorem C12_decoder_chunks :
+  forall be a b lb ls,
+    utf16_sm be (a ++ b) lb ls =
+    fst (utf16_feed be a lb ls) ++
+    utf16_sm be b (fst (snd (utf16_feed be a lb ls))) (snd (snd (utf16_feed be a lb ls))).
+Proof. exact sm_feed_app. Qed.
 Theorem C12_decode_app :
   forall a b, ends_high a && starts_low b = false ->
     utf16_decode (a ++ b) = utf16_decode a ++ utf16_decode b.
@@ -100,25 +109,60 @@ Proof. exact decode_app. Qed.
 Theorem C12_sst_fuel_suffices : forall st, parse_sst st <> OutOfFuel.
 Proof. exact sst_fuel_suffices. Qed.
 
-(* What the model returns on every legal layout, known class included (each string = its segments
-   decoded one by one), and exactness of the class: inside it the text is never read correctly. *)
-Theorem C12_model_value :
-  forall strs lay, legal_layout strs lay = true ->
-    parse_sst (sst_encode strs lay) = Ok (map seg_decode_str (combine strs (lay_strs lay))).
-Proof. exact sst_model_value. Qed.
-Theorem C12_known_class_exact :
-  forall strs lay c, legal_layout strs lay = true -> known_C12 strs lay = Some c ->
-    parse_sst (sst_encode strs lay) <> Ok (map (fun s => utf16_decode (units s)) strs).
-Proof. exact known_C12_exact. Qed.
+(* Totality (for C06): no well-formedness hypothesis.  parse_sst on any record body and any list
+   of CONTINUE bodies ends with Ok or Err — no panic site is reachable (negative or huge count, a
+   fragment ending inside cRun / cbExtRst, an empty CONTINUE where the flag byte is read, short
+   records), the fuel 1 + (bytes of the record and its CONTINUE records) suffices, and the capacity
+   reserved before reading anything is at most a third of those bytes. *)
+Theorem C12_no_panic_parse_sst :
+  forall data conts,
+    parse_sst (data, conts) <> Panic /\
+    parse_sst (data, conts) <> OutOfFuel /\
+    3 * sst_capacity_request (data, conts) <= N.of_nat (total_bytes (data, conts)).
+Proof. exact no_panic_parse_sst. Qed.
+Theorem C12_no_panic_short_string :
+  forall data, parse_short_string data <> Panic /\ parse_short_string data <> OutOfFuel.
+Proof. exact no_panic_short_string. Qed.
+(* RecordIter on any stream: each step and the whole iteration (fuel 1 + length of the stream) *)
+Theorem C12_no_panic_record_iter :
+  forall stream,
+    next_record stream <> Some Panic /\ next_record stream <> Some OutOfFuel /\
+    ~ In Panic (records stream) /\ ~ In OutOfFuel (records stream).
+Proof. exact no_panic_record_iter. Qed.
+Theorem C12_no_panic_parse_string :
+  forall r, parse_string r <> Panic /\ parse_string r <> OutOfFuel.
+Proof. exact no_panic_parse_string. Qed.
+Theorem C12_no_panic_parse_label :
+  forall r, parse_label r <> Panic /\ parse_label r <> OutOfFuel.
+Proof. exact no_panic_parse_label. Qed.
+Theorem C12_no_panic_parse_label_sst :
+  forall r strings, parse_label_sst r strings <> Panic /\ parse_label_sst r strings <> OutOfFuel.
+Proof. exact no_panic_parse_label_sst. Qed.
+Theorem C12_no_panic_sheet_metadata :
+  forall data, parse_sheet_metadata data <> Panic /\ parse_sheet_metadata data <> OutOfFuel.
+Proof. exact no_panic_sheet_metadata. Qed.
+(* the reduced parse_workbook (globals loop, per-sheet loops from the BoundSheet8 positions) *)
+Theorem C12_no_panic_wb_strings :
+  forall stream, wb_strings stream <> Panic /\ wb_strings stream <> OutOfFuel.
+Proof. exact no_panic_wb_strings. Qed.
 
-(* known class: the current code does deviate there *)
-Theorem C12_refuted_CutInsidePair :
-  exists strs lay, legal_layout strs lay = true /\ known_C12 strs lay = Some CutInsidePair /\
-    parse_sst (sst_encode strs lay) <> Ok (map (fun s => utf16_decode (units s)) strs).
-Proof. exact refuted_CutInsidePair. Qed.
+(* the former class CutInsidePair (finding F24): the witness now reads back as stored; a dangling
+   lead surrogate before an 8-bit segment is one U+FFFD; an empty segment between the halves of a
+   pair changes nothing *)
+Example C12_former_CutInsidePair :
+  legal_layout wit_pair_strs wit_pair_lay = true /\
+  sst_encode wit_pair_strs wit_pair_lay =
+    ([1; 0; 0; 0; 1; 0; 0; 0; 4; 0; 1; 97; 0; 61; 216], [[1; 0; 222; 98; 0]]) /\
+  parse_sst (sst_encode wit_pair_strs wit_pair_lay) = Ok [[97; 128512; 98]] /\
+  parse_sst (sst_encode [[97; 55357; 98]] (mkLay 1 [mkSL false true [(2%nat, false)] None None []]))
+    = Ok [[97; 65533; 98]] /\
+  parse_sst (sst_encode wit_pair_strs
+               (mkLay 1 [mkSL false true [(2%nat, false); (0%nat, true)] None None []]))
+    = Ok [[97; 128512; 98]].
+Proof. exact former_CutInsidePair_value. Qed.
 (* non-vacuity *)
 Example C12_sst_nonvacuous :
-  legal_layout ex_strs ex_lay = true /\ known_C12 ex_strs ex_lay = None /\
+  legal_layout ex_strs ex_lay = true /\
   length (snd (sst_encode ex_strs ex_lay)) = 9%nat /\
   parse_sst (sst_encode ex_strs ex_lay) =
   Ok [[104; 233; 233; 128512; 122]; []; [65279; 20013; 97]].
@@ -147,21 +191,21 @@ Example C12_record_iter_nonvacuous :
 Proof. exact example_record_iter. Qed.
 
 Check C12_sst_any_split :
-  forall strs lay, legal_layout strs lay = true -> known_C12 strs lay = None ->
+  forall strs lay, legal_layout strs lay = true ->
     parse_sst (sst_encode strs lay) = Ok (map (fun s => utf16_decode (units s)) strs).
 Check C12_string_read_exact :
-  forall us sl rest, legal_string us sl = true -> known_string us sl = None ->
+  forall us sl rest, legal_string us sl = true ->
     read_rich_extended_string (frags (string_items us sl ++ rest)) =
     Ok (utf16_decode us, frags rest).
 Check C12_labelsst_resolves :
   forall strs lay row col ixfe i s,
-    legal_layout strs lay = true -> known_C12 strs lay = None ->
+    legal_layout strs lay = true ->
     i <= 4294967295 -> nth_error strs (N.to_nat i) = Some s ->
     exists tbl, parse_sst (sst_encode strs lay) = Ok tbl /\
       parse_label_sst (labelsst_body row col ixfe i) tbl =
       Ok (if is_nil (units s) then None else Some (row, col, utf16_decode (units s))).
 Check C12_workbook_strings :
-  forall strs lay shs, legal_workbook strs lay shs = true -> known_C12 strs lay = None ->
+  forall strs lay shs, legal_workbook strs lay shs = true ->
     wb_strings (workbook_stream strs lay shs) = Ok (wb_spec strs shs).
 Check C12_parse_string_ok :
   forall hb us extra, legal_xl_string hb us = true ->
@@ -173,6 +217,18 @@ Check C12_sheet_name_ok :
     legal_short_string hb us = true ->
     parse_sheet_metadata (boundsheet_body pos vis typ hb us) =
     Ok (pos, filter (fun c => negb (c =? 0)) (utf16_decode us)).
+
+Check C12_no_panic_parse_sst :
+  forall data conts,
+    parse_sst (data, conts) <> Panic /\
+    parse_sst (data, conts) <> OutOfFuel /\
+    3 * sst_capacity_request (data, conts) <= N.of_nat (total_bytes (data, conts)).
+Check C12_no_panic_short_string :
+  forall data, parse_short_string data <> Panic /\ parse_short_string data <> OutOfFuel.
+Check C12_no_panic_record_iter :
+  forall stream,
+    next_record stream <> Some Panic /\ next_record stream <> Some OutOfFuel /\
+    ~ In Panic (records stream) /\ ~ In OutOfFuel (records stream).
 
 Print Assumptions C12_sst_any_split.
 Print Assumptions C12_string_read_exact.
@@ -187,9 +243,16 @@ Print Assumptions C12_workbook_strings.
 Print Assumptions C12_segment_decoder.
 Print Assumptions C12_decode_app.
 Print Assumptions C12_sst_fuel_suffices.
-Print Assumptions C12_model_value.
-Print Assumptions C12_known_class_exact.
-Print Assumptions C12_refuted_CutInsidePair.
+Print Assumptions C12_decoder_chunks.
+Print Assumptions C12_no_panic_parse_sst.
+Print Assumptions C12_no_panic_short_string.
+Print Assumptions C12_no_panic_record_iter.
+Print Assumptions C12_no_panic_parse_string.
+Print Assumptions C12_no_panic_parse_label.
+Print Assumptions C12_no_panic_parse_label_sst.
+Print Assumptions C12_no_panic_sheet_metadata.
+Print Assumptions C12_no_panic_wb_strings.
+Print Assumptions C12_former_CutInsidePair.
 Print Assumptions C12_sst_nonvacuous.
 Print Assumptions C12_xl_nonvacuous.
 Print Assumptions C12_workbook_nonvacuous.
